@@ -84,8 +84,36 @@ def decomp_shapes(ctx):
     return S
 
 
-def own2_shapes(ctx):
-    S = decomp_shapes(ctx)
+def lib_consts(ctx, exe):
+    """sizes the model takes as arguments, read from the library by running the driver"""
+    import subprocess
+    r = subprocess.run([exe, "consts"], stdout=subprocess.PIPE, stderr=subprocess.PIPE, universal_newlines=True, env=c18.san_env(ctx))
+    v = r.stdout.split()
+    if r.returncode != 0 or len(v) != 2 or int(v[1]) <= 0:
+        raise vf.CheckError("own2_driver consts failed: rc=%s %s %s" % (r.returncode, r.stdout[-200:], r.stderr[-500:]))
+    return int(v[0]), int(v[1])
+
+
+def parser_shapes(ctx, consts):
+    cap_params, cap_parts = consts
+    return [("urlenp", [cap_params]), ("mpartp", [cap_parts, 0]), ("mpartp", [cap_parts, 1]),
+            ("tx_full", [1, cap_params, cap_parts]), ("tx_full", [0, cap_params, cap_parts])]
+
+
+def line_shapes(ctx):
+    S = [("res_line", [n]) for n in (0, 1, 2, 3)]
+    # log on; leading ws, bad delimiter 1, method only, unknown method, bad delimiter 2, no protocol, invalid protocol
+    R = [[0, 0, 0, 0, 0, 0, 0, 0], [1, 1, 0, 0, 0, 0, 0, 0], [1, 0, 1, 1, 1, 0, 0, 0], [1, 0, 0, 1, 0, 0, 0, 0], [1, 0, 1, 0, 0, 1, 0, 0],
+         [1, 0, 0, 0, 1, 0, 1, 0], [1, 0, 0, 0, 1, 0, 0, 1], [1, 1, 1, 0, 1, 1, 0, 1], [0, 1, 1, 0, 1, 1, 0, 1], [1, 0, 0, 0, 0, 0, 0, 1]]
+    if ctx.thorough():
+        R = [[log, a, b, c, d, e, f, g] for log in (0, 1) for a in (0, 1) for b in (0, 1) for c in (0, 1) for d in (0, 1)
+             for e in (0, 1) for f in (0, 1) for g in (0, 1) if not (c and (e or f or g)) and not (f and g) and not (e and f)]
+        # (a bad delimiter inside the URI with nothing after it makes the parser split at that delimiter: not a separate shape)
+    return S + [("req_line", r) for r in R]
+
+
+def own2_shapes(ctx, consts=(32, 64)):
+    S = decomp_shapes(ctx) + parser_shapes(ctx, consts) + line_shapes(ctx)
     for a in res_header_shapes(ctx):
         S.append(("res_header", a))
     for a in ((0, 1, 0, 0, 0), (0, 3, 0, 0, 0), (1, 2, 1, 0, 0), (0, 2, 1, 0, 0), (0, 3, 0, 1, 0), (0, 1, 0, 1, 0), (0, 2, 0, 0, 1),
@@ -119,7 +147,7 @@ def own2_line(fn, args, k):
 def check_more(ctx, exe=None, mexe=None):
     exe = exe or build_driver2(ctx)
     mexe = mexe or vf.build_model_driver(ctx)
-    shapes = own2_shapes(ctx)
+    shapes = own2_shapes(ctx, lib_consts(ctx, exe))
     base, rc, err = vf.run_driver(ctx, mexe, [own2_line(f, a, 0) for f, a in shapes], "own2-base")
     if rc != 0 or len(base) != len(shapes) or any(o.startswith("?") for o in base):
         raise vf.CheckError("model driver failed on the S-own2 base cases: rc=%s %s %s" % (rc, err[-500:], [o for o in base if o.startswith("?")][:2]))
